@@ -3,7 +3,7 @@
    Depends on the model file only, so that it still extracts when a proof breaks. *)
 From Coq Require Import List ZArith Extraction ExtrOcamlBasic.
 From LMBase Require Import Res ListX IEEE.
-From LMDisc Require Import DiscModel DiscImplCheck.
+From LMDisc Require Import DiscModel DiscImplCheck DiscU8Kernel GenDiscU8.
 
 Definition f_of_bits : Z -> F32.t := F32.of_bits.
 Definition f_to_bits : F32.t -> Z := F32.to_bits.
@@ -32,4 +32,6 @@ Extraction "disc_model.ml"
   f_real_score f_first_bad f_check_C08 f_first_bad_impl f_check_C08_impl f32_le f_d_data f_d_factor f_d_offsets f_d_offset
   z_sc_rows z_sc_max z_sc_index
   disc_score score_u8 score_rows_dispatch score_rows_avx2 striped configure_wrap_of
-  well_conditioned cond_bound cond_A factor_sign_clear.
+  well_conditioned cond_bound cond_A factor_sign_clear
+  score_rows_generic sat_add vk_score_rows run_u8_kernel arm4_of
+  gen_avx2_u8 gen_neon_u8 gen_dispatch_u8_x86 gen_dispatch_u8_arm gen_pipeline_u8.
